@@ -39,6 +39,7 @@ pub fn translate(repo: &Path, out: &mut Out) {
             variants: vec![],
             eq: "N.eqb",
             take_default: "(@nil N)",
+            display: vec![],
         };
         let state = vec!["self_buffer".to_string(), "self_inner".to_string()];
         let sig = "(self_mapping_fn : bytes -> bytes) (self_buffer : bytes) (self_inner : option bytes)";
